@@ -1,4 +1,4 @@
-"""C09 -- computing changes is pure; performing touches only what was announced (R09.1-R09.8)."""
+"""C09 -- computing changes is pure; performing touches only what was announced (R09.1-R09.9)."""
 from __future__ import annotations
 
 import ast
@@ -21,7 +21,7 @@ EXPLANATION = (
     "a dominating equality/membership test against a clean value), never a resource derived from an inferred object "
     "(which may live outside the project).  R09.6: explicit raises in the refactoring modules raise RopeError "
     "subclasses; no assert tests the analysed program's AST.  R09.7: every element that enters the project's cached file listing (what project-wide refactorings iterate) is dominated by a negative is_ignored test of that element.  R09.8: the 'inside this folder / inside the project root' tests compare "
-    "paths with a prefix that ends in the separator.  Implicit internal exceptions are not decided."
+    "paths with a prefix that ends in the separator.  R09.9: the analysis callback that runs inside every write absorbs ModuleSyntaxError.  Implicit internal exceptions are not decided."
 )
 ASSUMPTIONS = [
     "callee resolution without a type checker: see DESIGN.md section 2 (E2)",
@@ -279,6 +279,7 @@ def check(ctx, res) -> None:
     _typed_refusals(ctx, res)
     common.file_list_filter_rule(ctx, res, "R09.7")
     common.prefix_boundary_rule(ctx, res, "R09.8", ["rope.base.resources.Folder.contains", "rope.base.libutils.relative"])
+    common.soa_observer_rule(ctx, res, "R09.9")
 
 
 def _fixture_control(ctx, res) -> None:
